@@ -250,6 +250,9 @@ def lil_array(arg, dtype=None, **kw):
 
 
 # ----------------------------------------------------------------------------- LU contract
+LU_MODE = ["fresh"]   # "fresh": LU contract with fresh symbols; "cramer": exact inverse (n <= 4)
+
+
 class SymLU:
     """LU contract: solve(b) returns fresh symbols x and records (A, b, x); the claim that uses it
     states 'x solves A x = b' as its single trusted implication."""
@@ -260,6 +263,8 @@ class SymLU:
     def solve(s, b, trans="N"):
         b = _np.asarray(b, dtype=object)
         A = s.A.T if trans == "T" else s.A
+        if LU_MODE[0] == "cramer":
+            return symnp._inv(A) @ b
         n = len(CTX.lu_log) + 1
         if b.ndim == 1:
             x = _np.array([core.var(f"lu{n}_{i}", kind="lu") for i in range(A.shape[1])], dtype=object)
